@@ -51,7 +51,9 @@ Base == [entry |-> "xml", signed |-> TRUE, dest |-> "eq", rIss |-> "eq", status 
          art |-> [irt |-> "match", iss |-> "eq", status |-> "Success", signed |-> FALSE, time |-> "in"]]
 
 \* noIdent: neither an entity ID nor a metadata URL is configured - the SP's identifier is the empty string
-BaseCfg == [eidSet |-> TRUE, noIdent |-> FALSE, audVal |-> "none", cur |-> "acs", allowIdp |-> FALSE,
+\* idpStub: the IdP is trusted by a pinned certificate and its metadata is a stub without entityID - the configured IdP
+\* entity ID is the empty string, and an Issuer that names anybody is not it
+BaseCfg == [eidSet |-> TRUE, noIdent |-> FALSE, idpStub |-> FALSE, audVal |-> "none", cur |-> "acs", allowIdp |-> FALSE,
             reqVal |-> "none", outstanding |-> {"id1"}]
 
 AudSeqs == { <<"alt">>, <<"alt", "wrong">>, <<>>, <<"eq">>, <<"wrong">>, <<"prefix">>, <<"suffix">>, <<"case">>, <<"slash">>, <<"empty">>,
@@ -112,7 +114,10 @@ CfgsC03small == { BaseCfg, [BaseCfg EXCEPT !.cur = "query"], [BaseCfg EXCEPT !.c
 \* an SP without any identifier of its own: audience restrictions that name somebody are not for it
 NoIdentCfgs == { [BaseCfg EXCEPT !.eidSet = FALSE, !.noIdent = TRUE, !.allowIdp = i] : i \in BOOLEAN }
 NoIdentIns  == UNION { { Vary(b, "auds", v) : v \in { <<>>, <<"wrong">>, <<"wrong", "wrong">>, <<"eq">> } } : b \in {Base, Unsigned(Base)} }
+StubCfgs == { [BaseCfg EXCEPT !.idpStub = TRUE, !.allowIdp = i] : i \in BOOLEAN }
+StubIns  == { [b EXCEPT !.rIss = r, !.assns[1].iss = a] : b \in {Base, Unsigned(Base)}, r \in {"absent", "eq"}, a \in {"eq", "wrong", "case"} }
 InitC03q == \/ /\ cfg \in NoIdentCfgs /\ in \in NoIdentIns
+            \/ /\ cfg \in StubCfgs /\ in \in StubIns
             \/ /\ cfg \in CfgsC03
                /\ in \in Singles(Base) \cup Singles(Unsigned(Base)) \cup TwoConfs \cup TwoAssns \cup NoConfs \cup NoDataConfs \cup MethodConfs
             \/ /\ cfg \in CfgsC03small
@@ -123,6 +128,7 @@ InitC03q == \/ /\ cfg \in NoIdentCfgs /\ in \in NoIdentIns
             \/ /\ cfg \in CfgsC03small
                /\ in \in { [x EXCEPT !.entry = "post"] : x \in Singles(Base) }
 InitC03t == \/ /\ cfg \in NoIdentCfgs /\ in \in NoIdentIns
+            \/ /\ cfg \in StubCfgs /\ in \in StubIns
             \/ /\ cfg \in CfgsC03
                /\ in \in Singles(Base) \cup Singles(Unsigned(Base)) \cup TwoConfs \cup TwoAssns \cup NoConfs \cup NoDataConfs \cup MethodConfs
                         \cup Pairs(Base) \cup ArtC03 \cup ArtInner
@@ -246,7 +252,8 @@ RespTime == /\ pc = "RespTime" /\ Keep /\ UNCHANGED badStatus
             /\ IF in.rTime = "out" THEN Reject("RespIssueInstant") ELSE Goto("RespIssuer")
 \* :1025
 RespIssuer == /\ pc = "RespIssuer" /\ Keep /\ UNCHANGED badStatus
-              /\ IF in.rIss \notin {"eq", "absent"} THEN Reject("RespIssuer") ELSE Goto("Status")
+              /\ IF (IF cfg.idpStub THEN in.rIss \notin {"empty", "absent"} ELSE in.rIss \notin {"eq", "absent"})
+                   THEN Reject("RespIssuer") ELSE Goto("Status")
 \* :1028
 Status == /\ pc = "Status" /\ Keep
           /\ IF in.status # "Success"
@@ -271,7 +278,7 @@ AssnTime == /\ pc = "AssnTime" /\ Keep /\ UNCHANGED badStatus
             /\ IF A.time = "out" THEN FailAssn("AssnTime") ELSE Stay("AssnIssuer")
 \* :1185 exact match, no "absent" escape
 AssnIssuer == /\ pc = "AssnIssuer" /\ Keep /\ UNCHANGED badStatus
-              /\ IF A.iss # "eq" THEN FailAssn("AssnIssuer") ELSE Stay("ConfLoop")
+              /\ IF (IF cfg.idpStub THEN A.iss # "empty" ELSE A.iss # "eq") THEN FailAssn("AssnIssuer") ELSE Stay("ConfLoop")
 \* :1188-1225 every confirmation: InResponseTo (unless IdP-initiated), Recipient, NotOnOrAfter
 ConfLoop == /\ pc = "ConfLoop" /\ Keep /\ UNCHANGED badStatus
             /\ IF cj > Len(A.confs) THEN (IF A.cond = "out" THEN FailAssn("Conditions") ELSE Stay("Audience"))
@@ -306,7 +313,8 @@ Done == pc = "done"
 Browser == in.entry # "artifact"
 
 \* C03 ---------------------------------------------------------------------
-RespIssuerBad == in.rIss \notin {"eq", "absent"}
+RespIssuerBad == IF cfg.idpStub THEN in.rIss \notin {"empty", "absent"} ELSE in.rIss \notin {"eq", "absent"}
+IssBad(a)     == IF cfg.idpStub THEN a.iss # "empty" ELSE a.iss # "eq"
 StatusBad     == in.status # "Success"
 \* Destination: present and equal to neither URL; or absent on a signed browser-delivered Response
 DestBad == \/ ~DestIsEmpty /\ ~DestMatches
@@ -317,8 +325,8 @@ AudBad(a)  == IF cfg.audVal # "none" THEN cfg.audVal = "fail"
               ELSE Len(a.auds) > 0 /\ \A k \in DOMAIN a.auds : a.auds[k] # "eq"
 AudGood(a) == IF cfg.audVal # "none" THEN cfg.audVal = "ok"
               ELSE \A k \in DOMAIN a.auds : a.auds[k] = "eq"
-AssnAddrBad(a)  == a.iss # "eq" \/ (\E j \in DOMAIN a.confs : a.confs[j].recip # "eq") \/ AudBad(a)
-AssnAddrGood(a) == a.iss = "eq" /\ (\A j \in DOMAIN a.confs : a.confs[j].recip = "eq") /\ AudGood(a) /\ Len(a.confs) > 0
+AssnAddrBad(a)  == IssBad(a) \/ (\E j \in DOMAIN a.confs : a.confs[j].recip # "eq") \/ AudBad(a)
+AssnAddrGood(a) == ~IssBad(a) /\ (\A j \in DOMAIN a.confs : a.confs[j].recip = "eq") /\ AudGood(a) /\ Len(a.confs) > 0
 
 C03MustReject == RespIssuerBad \/ StatusBad \/ DestBad \/ ArtBad \/ \A k \in DOMAIN in.assns : AssnAddrBad(in.assns[k])
 
